@@ -138,6 +138,114 @@ end
 theorem jsonParams_meets (ps : List Ahead) (doc : JVal) (l : Labels) : jsonParams ps doc l = jsonPathLabels ps doc l := by
   simp only [jsonParams, jsonPathLabels, jppVal_leaves]
 
+/-! ### parameters with pairwise different names on a document read to the end: the reading by lookup -/
+theorem bytes_lt_total (a b : Bytes) (h : a ≠ b) (h2 : ¬ a < b) : b < a :=
+  Std.lt_of_le_of_ne h2 (Ne.symm h)
+
+/-- assignments to different keys of the label map commute (on any list, sorted or not) -/
+theorem set_comm (l : Labels) (a b x y : Bytes) (hab : a ≠ b) : (l.set a x).set b y = (l.set b y).set a x := by
+  have hba : ¬ b = a := fun e => hab e.symm
+  induction l with
+  | nil =>
+    by_cases h : b < a
+    · have : ¬ a < b := List.lt_asymm h
+      simp [Labels.set, hab, hba, h, this]
+    · have : a < b := bytes_lt_total b a hba h
+      simp [Labels.set, hab, hba, h, this]
+  | cons p rest ih =>
+    obtain ⟨k, v⟩ := p
+    by_cases hka : k = a
+    · subst hka
+      by_cases h : b < k
+      · have : ¬ k < b := List.lt_asymm h
+        simp [Labels.set, hab, hba, h, this]
+      · simp [Labels.set, hab, h]
+    · by_cases hkb : k = b
+      · subst hkb
+        by_cases h : a < k
+        · have : ¬ k < a := List.lt_asymm h
+          simp [Labels.set, hab, hba, h, this]
+        · simp [Labels.set, hba, h, hka]
+      · by_cases h1 : a < k <;> by_cases h2 : b < k
+        · by_cases h : b < a
+          · have : ¬ a < b := List.lt_asymm h
+            simp [Labels.set, hab, hba, h, this, hka, hkb, h1, h2]
+          · have : a < b := bytes_lt_total b a hba h
+            simp [Labels.set, hab, hba, h, this, hka, hkb, h1, h2]
+        · have : ¬ b < a := fun h => h2 (List.lt_trans h h1)
+          simp [Labels.set, hab, this, hka, hkb, h1, h2]
+        · have : ¬ a < b := fun h => h1 (List.lt_trans h h2)
+          simp [Labels.set, hba, this, hka, hkb, h1, h2]
+        · simp [Labels.set, hka, hkb, h1, h2, ih]
+
+theorem setMatching_set_comm (ps : List Ahead) (n x : Bytes) (hn : n ∉ ps.map (·.1)) (acc : Labels)
+    (pv : List PathSeg × Bytes) : setMatching ps (acc.set n x) pv = (setMatching ps acc pv).set n x := by
+  induction ps generalizing acc with
+  | nil => rfl
+  | cons a rest ih =>
+    have hna : n ≠ a.1 := fun e => hn (by simp [e])
+    have hrest : n ∉ rest.map (·.1) := fun h => hn (by simp only [List.map_cons, List.mem_cons]; exact Or.inr h)
+    simp only [setMatching, List.foldl_cons] at ih ⊢
+    by_cases h : a.2 = pv.1
+    · simp only [h, if_true]
+      rw [set_comm acc n a.1 x pv.2 hna]
+      exact ih hrest _
+    · simp only [h, if_false]
+      exact ih hrest _
+
+theorem setMatching_single (a : Ahead) (acc : Labels) (pv : List PathSeg × Bytes) :
+    setMatching [a] acc pv = if a.2 = pv.1 then acc.set a.1 pv.2 else acc := rfl
+
+/-- the steps of one parameter commute with the steps of the others when its name is not among theirs -/
+theorem setMatching_comm (a : Ahead) (ps : List Ahead) (hn : a.1 ∉ ps.map (·.1)) (acc : Labels)
+    (pv pv' : List PathSeg × Bytes) :
+    setMatching ps (setMatching [a] acc pv) pv' = setMatching [a] (setMatching ps acc pv') pv := by
+  simp only [setMatching_single]
+  by_cases h : a.2 = pv.1
+  · simp only [h, if_true]; exact setMatching_set_comm ps a.1 pv.2 hn acc pv'
+  · simp only [h, if_false]
+
+theorem foldl_push {α β : Type} (F G : α → β → α) (hcomm : ∀ acc x y, G (F acc x) y = F (G acc y) x)
+    (lv : List β) (z : α) (y : β) : lv.foldl F (G z y) = G (lv.foldl F z) y := by
+  induction lv generalizing z with
+  | nil => rfl
+  | cons x xs ih => simp only [List.foldl_cons, ← hcomm, ih]
+
+theorem foldl_interchange {α β : Type} (F G : α → β → α) (hcomm : ∀ acc x y, G (F acc x) y = F (G acc y) x)
+    (lv : List β) (l : α) : lv.foldl (fun acc x => G (F acc x) x) l = lv.foldl G (lv.foldl F l) := by
+  induction lv generalizing l with
+  | nil => rfl
+  | cons x xs ih =>
+    simp only [List.foldl_cons]
+    rw [ih, foldl_push F G hcomm]
+
+/-- parameters with pairwise different names: the document-order definition decomposes into one pass per parameter -/
+theorem jsonPathLabels_distinct (ps : List Ahead) (hd : (ps.map (·.1)).Nodup) (lv : List (List PathSeg × Bytes)) (l : Labels) :
+    lv.foldl (setMatching ps) l = ps.foldl (fun acc a => lv.foldl (setMatching [a]) acc) l := by
+  induction ps generalizing l with
+  | nil => simp only [List.foldl_nil, foldl_setMatching_nil]
+  | cons a rest ih =>
+    have hn : a.1 ∉ rest.map (·.1) := (List.nodup_cons.mp hd).1
+    have hsplit : setMatching (a :: rest) = fun acc pv => setMatching rest (setMatching [a] acc pv) pv := by
+      funext acc pv; rfl
+    rw [hsplit, foldl_interchange (setMatching [a]) (setMatching rest) (fun acc x y => setMatching_comm a rest hn acc x y)]
+    simp only [List.foldl_cons]
+    exact ih (List.nodup_cons.mp hd).2 _
+
+/-- **no two parameters share a name, the document is read to the end**: the general definition is the reading by
+    lookup, parameter by parameter — each label is the scalar its path leads to, independent of the order of the
+    parameters and of the order of the members in the document -/
+theorem jsonParams_distinct_lookup (ps : List Ahead) (hd : (ps.map (·.1)).Nodup) (doc : JVal) (hb : hasBad doc = false)
+    (l : Labels) : jsonPathLabels ps doc l = jsonParamLabels ps doc l := by
+  simp only [jsonPathLabels, jsonPathLabels_distinct ps hd, jsonParamLabels]
+  congr 1
+  funext acc a
+  have h1 := jsonParams_meets [a] doc acc
+  have h2 := jsonParams_single a.1 a.2 doc acc hb
+  simp only [jsonPathLabels] at h1
+  rw [← h1, h2]
+  simp only [jsonParamLabels, List.foldl_cons, List.foldl_nil]
+
 variable {V : Type}
 
 theorem parseLabels_meets (E : Env V) (k : ParserKind) (msg : Bytes) (l : Labels) :
